@@ -13,6 +13,9 @@ pub enum Step {
     Open,
     /// end the open connection selected by `sel` (monotone index) in the given way
     End { sel: u8, kind: u8 },
+    /// (idle-timeout scenario) leave the selected served connection stalled in the middle of a request:
+    /// 0 = idle between requests, 1 = inside a header, 2 = inside a body, 3 = inside an oversized body
+    Stall { sel: u8, kind: u8 },
 }
 
 #[derive(Clone, Debug, Serialize, Deserialize, PartialEq, Eq, Hash)]
@@ -231,6 +234,7 @@ pub fn run_case(case: &C17Case) -> CaseReport {
         detail: json!({ "trace": trace }),
     };
     let t_start = Instant::now();
+    let mut stalled_ids: Vec<u32> = vec![];
     for (i, st) in case.steps.iter().enumerate() {
         // idle scenario: the whole sequence must finish well within the 1 s timeout; keep it short
         if case.idle && t_start.elapsed() > Duration::from_millis(600) {
@@ -246,6 +250,36 @@ pub fn run_case(case: &C17Case) -> CaseReport {
                     return rep;
                 }
                 format!("step {} open #{}", i, w.next_id)
+            }
+            Step::Stall { sel, kind } => {
+                if w.open.is_empty() || !case.idle {
+                    continue;
+                }
+                let idx = crate::sym::pick(*sel, w.open.len());
+                if !w.open[idx].served {
+                    continue;
+                }
+                let id = w.open[idx].id;
+                let item_limit = w.item_limit;
+                let c = &mut w.open[idx];
+                match kind % 4 {
+                    0 => {}
+                    1 => World::write_raw(c, &wire::simple(wire::NOOP, 2).bytes()[..11]),
+                    2 => {
+                        let f = wire::store(wire::SET, b"k17", &[b'x'; 300], 0, 0, 3, 0).bytes();
+                        World::write_raw(c, &f[..150]);
+                    }
+                    _ => {
+                        let mut f = wire::store(wire::SET, b"big17", &[], 0, 0, 5, 0);
+                        f.body_len = item_limit * 4;
+                        let mut b = f.bytes();
+                        b.extend(std::iter::repeat(b'y').take(item_limit as usize / 2));
+                        World::write_raw(c, &b);
+                    }
+                }
+                w.kinds_used.insert(10 + kind % 4);
+                stalled_ids.push(id);
+                format!("step {} stall #{} ({})", i, id, ["idle", "mid_header", "mid_body", "mid_oversized_body"][(*kind % 4) as usize])
             }
             Step::End { sel, kind } => {
                 if w.open.is_empty() {
@@ -268,6 +302,8 @@ pub fn run_case(case: &C17Case) -> CaseReport {
         // every served connection idles out after 1 s; then the waiting ones get their slots
         let t0 = Instant::now();
         let n_served_before = w.open.iter().filter(|c| c.served).count();
+        // only connections served at this moment are expected to idle out; waiting ones may be served later
+        let served_before_idle: Vec<u32> = w.open.iter().filter(|c| c.served).map(|c| c.id).collect();
         std::thread::sleep(Duration::from_millis(1300));
         let mut closed = 0;
         let mut i = 0;
@@ -283,6 +319,40 @@ pub fn run_case(case: &C17Case) -> CaseReport {
         }
         w.kinds_used.insert(9);
         trace.push(format!("idle {} ms: server closed {} of {} served connections", t0.elapsed().as_millis(), closed, n_served_before));
+        // every served connection (idle or stalled inside a request) must be timed out: wait without deadline pressure
+        let t1 = Instant::now();
+        loop {
+            let mut i = 0;
+            while i < w.open.len() {
+                w.open[i].cl.read_available();
+                if w.open[i].served && (w.open[i].cl.eof || w.open[i].cl.reset) {
+                    let c = w.open.remove(i);
+                    c.cl.close();
+                } else {
+                    i += 1;
+                }
+            }
+            let left: Vec<u32> = w.open.iter().filter(|c| c.served && c.noop_sent).map(|c| c.id).collect();
+            // connections that were served before the idle period began must all be gone
+            let old_left: Vec<u32> = left.iter().cloned().filter(|id| served_before_idle.contains(id)).collect();
+            if old_left.is_empty() {
+                break;
+            }
+            if t1.elapsed() > Duration::from_secs(6) {
+                rep.fail = Some(fail(
+                    "idle_timeout_missed".into(),
+                    format!(
+                        "connections {:?} (stalled ones: {:?}) were served, then sent nothing for {} ms with a 1 s receive timeout, and are still open: their slots are never returned",
+                        old_left,
+                        stalled_ids,
+                        (t0.elapsed()).as_millis()
+                    ),
+                    &trace,
+                ));
+                return rep;
+            }
+            std::thread::sleep(Duration::from_millis(20));
+        }
         if let Err((clause, msg)) = w.settle("idle timeout of the served connections") {
             rep.fail = Some(fail(clause, msg, &trace));
             return rep;
@@ -320,7 +390,14 @@ pub fn run_case(case: &C17Case) -> CaseReport {
         rep.classes.push("idle_timeout".into());
     }
     for k in &w.kinds_used {
-        rep.classes.push(format!("ending:{}", if *k == 9 { "idle_timeout" } else { ENDINGS[*k as usize] }));
+        rep.classes.push(format!(
+            "ending:{}",
+            match *k {
+                9 => "idle_timeout".to_string(),
+                10..=13 => format!("idle_timeout_while_{}", ["idle", "mid_header", "mid_body", "mid_oversized_body"][(*k - 10) as usize]),
+                k => ENDINGS[k as usize].to_string(),
+            }
+        ));
     }
     rep.extra_counts.push(("lifecycles".into(), w.next_id as u64));
     drop(server);
@@ -345,7 +422,11 @@ pub fn strategy(limits: Vec<u32>, idle_pct: u32) -> BoxedStrategy<C17Case> {
             let mut pre = vec![Step::Open; limit as usize + 1];
             pre.append(&mut steps);
             if idle {
-                pre.truncate(limit as usize + 6);
+                pre.truncate(limit as usize + 3);
+                // stall some of the served connections in the middle of a request
+                for j in 0..limit as usize {
+                    pre.push(Step::Stall { sel: (j * 97 % 256) as u8, kind: (workers as usize + j + limit as usize) as u8 });
+                }
             }
             C17Case { limit, workers, steps: pre, idle }
         })
